@@ -83,8 +83,10 @@ def gen_config(rng):
                 avail_req = (avail_route - set(url) - set(rres) - all_req_prov) | (app_req_prov if ph != 'request' else sofar[ph])
             else:
                 avail_req = avail_route
-            # V2: an optional parameter never names something provided elsewhere but not on offer here
-            later = all_prov - avail_route
+            # V2: an optional parameter of a function that itself PROVIDES something never names a value provided
+            # elsewhere but not on offer here (clastic's dependency resolver may see a cycle there).  A function that
+            # provides nothing may: nobody offers the name at its position, so it gets its own default.
+            later = (all_prov - avail_route) if prov[ph] else set()
             f = pick(avail_req, avail_route, later)
             f['provides'] = list(prov[ph])
             f['positional_next'] = rng.random() < 0.35
@@ -92,16 +94,17 @@ def gen_config(rng):
             sofar[ph] |= set(prov[ph])
         mws.append({'name': 'M%d' % i, 'level': 'app' if is_app else 'route', 'funcs': funcs})
     av = base_route | all_req_prov | sofar['endpoint']
-    ep = pick(av, av, all_prov - av)
+    ep = pick(av, av, set())       # may declare, with a default, names only the render side provides
     ep['kind'] = rng.choice(KINDS)
     av = base_route | all_req_prov | sofar['render'] | set(['context'])
-    rn = pick(av, av, all_prov - av)
+    rn = pick(av, av, set())
     rn['kind'] = rng.choice(KINDS)
     utypes = []
     for k, u in enumerate(url):
-        t = rng.choice(['str', 'str', 'int'])
-        if k == len(url) - 1 and rng.random() < 0.3:
-            t = 'multi'
+        t = rng.choice(['str', 'str', 'int', 'float'])
+        if k == len(url) - 1 and rng.random() < 0.45:
+            # optional and repeated bindings, also with a converter: the converted value may be None, [], 0, 0.0
+            t = rng.choice(['multi', 'multi', 'optint', 'optstr', 'optfloat', 'multiint', 'optmulti'])
         utypes.append([u, t])
     cfgd = {'url': utypes, 'resources': list(res), 'route_resources': list(rres), 'mws': mws, 'ep': ep, 'rn': rn}
     # a sibling route BEFORE the main one whose pattern matches the same paths but admits only POST; its URL
@@ -194,12 +197,12 @@ def build(cfg, tag):
     rn = wrap_kind(cfg['rn'], 'RN', 'resp')
     segs = ['x']
     for u, t in cfg['url']:
-        segs.append({'str': '<%s>' % u, 'int': '<%s:int>' % u, 'multi': '<%s+>' % u}[t])
+        segs.append(SEG[t] % u)
     pattern = '/' + '/'.join(segs)
     eh = make_error_handler(cfg['re']) if cfg.get('re') else None
     first = []
     if cfg.get('decoy'):
-        dsegs = ['x'] + [{'str': '<%s>' % u, 'int': '<%s:int>' % u, 'multi': '<%s+>' % u}[t] for u, t in cfg['decoy']]
+        dsegs = ['x'] + [SEG[t] % u for u, t in cfg['decoy']]
         first.append(Route('/' + '/'.join(dsegs), lambda: Response('decoy'), methods=['POST']))
     app = Application(first + [Route(pattern, ep, rn, middlewares=objs['route'], resources=route_resources)],
                       resources=resources, middlewares=objs['app'], error_handler=eh)
@@ -213,12 +216,40 @@ def build(cfg, tag):
     return app, allres, pattern
 
 
+SEG = {'str': '<%s>', 'int': '<%s:int>', 'multi': '<%s+>', 'float': '<%s:float>', 'optint': '<%s?int>', 'optstr': '<%s?>',
+       'optfloat': '<%s?float>', 'multiint': '<%s+int>', 'optmulti': '<%s*>'}
+
+
 def url_values(cfg, seq):
+    """-> ({binding: the converted value clastic documents for it}, path).  Values are per-request sentinels, except
+    that every third or so is one of the values a careless converter loses: 0, 0.0, '0', absent, empty."""
     vals, segs = {}, ['x']
     for u, t in cfg['url']:
+        k = (seq + len(cfg['url'])) % 4
         if t == 'int':
-            vals[u] = 100000 + seq
-            segs.append(str(vals[u]))
+            vals[u], sp = [(100000 + seq, None), (0, '0'), (100000 + seq, None), (0, '000')][k]
+            segs.append(sp or str(vals[u]))
+        elif t == 'float':
+            vals[u], sp = [(seq + 0.5, None), (0.0, '0.0'), (float(seq), str(seq)), (seq + 0.25, None)][k]
+            segs.append(sp or str(vals[u]))
+        elif t == 'optint':
+            vals[u], sp = [(100000 + seq, None), (0, '0'), (None, ''), (0, '00')][k]
+            if sp != '':
+                segs.append(sp or str(vals[u]))
+        elif t == 'optfloat':
+            vals[u], sp = [(0.0, '0.0'), (seq + 0.5, None), (None, ''), (0.0, '0')][k]
+            if sp != '':
+                segs.append(sp or str(vals[u]))
+        elif t == 'optstr':
+            vals[u] = ['v%d%s' % (seq, u), '0', None, 'None'][k]
+            if vals[u] is not None:
+                segs.append(vals[u])
+        elif t == 'multiint':
+            vals[u], sp = [([seq, 100000 + seq], None), ([0], '0'), ([0, 0, 7], '0/00/7'), ([100000 + seq], None)][k]
+            segs.extend((sp or '/'.join(str(x) for x in vals[u])).split('/'))
+        elif t == 'optmulti':
+            vals[u] = [['m%d%s' % (seq, u), 'tail'], [], ['0'], ['m%d%s' % (seq, u)]][k]
+            segs.extend(vals[u])
         elif t == 'multi':
             vals[u] = ['m%d%s' % (seq, u), 'tail']
             segs.extend(vals[u])
@@ -285,6 +316,10 @@ def declared(cfg, fname):
     return list(f['req']) + list(f['opt']) + list(f['kwreq']) + list(f['kwopt'])
 
 
+def ALL_PROVIDED(cfg):
+    return set(p for m in cfg['mws'] for f in m['funcs'].values() for p in f['provides'])
+
+
 class C02(Check):
     id = 'C02'
     world = 'chain'
@@ -295,7 +330,7 @@ class C02(Check):
     hashseeds = {'quick': [1, 2], 'thorough': [1, 2, 3, 4]}
     hashseed_sample = {'quick': 300, 'thorough': 3000}    # the property is quantified over the hash seed
     rule = ('resolvable-by-construction injection stacks (0-4 middlewares at app/route level, any phases, signatures mixing '
-            'required/defaulted/keyword-only parameters over URL bindings (str/int/multi), resources, built-ins, provides; '
+            'required/defaulted/keyword-only parameters over URL bindings (str/int/float, repeated, optional, optional/repeated with a converter; values incl. 0, 0.0, absent, empty), resources, built-ins, provides; '
             'endpoint/render as function, lambda, bound method, callable object, static/class method, clastic_decorator-wrapped) '
             'x histories of 2-8 requests (route and catch-all 404) with all source values distinct sentinels, some batches '
             'served concurrently under seeded thread schedules; every call of every harness function is compared, argument '
@@ -314,7 +349,8 @@ class C02(Check):
                   'is the history, interleaving and hash-seed dimensions the property names.')
     level_note = 'Trusted: the resolver (~40 lines from the property text), generator validity rules V1-V3.'
     required_probes = ('embedded-in-parent-offering-more-names', 'decoy-route-binding-named-like-resource', 'positional-next-multi', 'render-error-injected', 'optional-got-offered-value', 'kwonly-got-offered-value', 'null-route-defaults', 'concurrent-batch',
-                       'kind-lambda', 'kind-callable', 'kind-classmethod', 'kind-decorated', 'multi-url-value')
+                       'kind-lambda', 'kind-callable', 'kind-classmethod', 'kind-decorated', 'multi-url-value',
+                       'default-for-name-provided-elsewhere', 'optional-url-binding-absent', 'optional-url-binding-zero', 'optional-url-binding-present', 'url-value-zero', 'multi-url-binding-empty')
 
     def generate(self, seed, tier):
         S = Streams(seed)
@@ -435,6 +471,8 @@ class C02(Check):
                 where = '%s %s(%s)' % (ctx, fname, p)
                 if src is None:
                     d[p] = 'DEFAULT'
+                    if p in ALL_PROVIDED(cfg):
+                        res.probe('default-for-name-provided-elsewhere')
                     if v is not DEFAULT:
                         res.violate(K + 'value-without-source', where + ' got %r although no source offers that name' % (v,), step)
                         return
@@ -471,6 +509,14 @@ class C02(Check):
                 res.probe('render-error-injected')
         if any(t == 'multi' for _, t in cfg['url']) and kind == 'route':
             res.probe('multi-url-value')
+        if kind == 'route':
+            for u, t in cfg['url']:
+                if t.startswith('opt') and t != 'optmulti':
+                    res.probe('optional-url-binding-' + ('absent' if urlv[u] is None else 'zero' if urlv[u] in (0, '0') else 'present'))
+                if t in ('int', 'float') and urlv[u] == 0:
+                    res.probe('url-value-zero')
+                if t == 'optmulti' and urlv[u] == []:
+                    res.probe('multi-url-binding-empty')
         # which functions must have run
         must = self.must_run(cfg, kind)
         got = [f for f, _ in calls]
